@@ -61,13 +61,16 @@ Record witem := WItem { wi_batch : nat; wi_gauge : bool; wi_item : item }.
 Record body := Body {
   bd_items : list nat;                 (* ids of the items decoded from the body *)
   bd_enc : str;                        (* Content-Encoding the handler was configured to send *)
-  bd_headers : list (str * str)        (* headers received (lower-case names), transport-generated ones removed *)
+  bd_headers : list (str * str);       (* headers received (lower-case names), transport-generated ones removed *)
+  bd_stop_ub : Z                       (* for a body that was given up: upper bound (ns) on the time from the creation of
+                                          its request (>= the last dispatch call of any of its items) to the handler's
+                                          "giving up" log entry, i.e. on the elapsed time NextBackOff can have seen *)
 }.
 
 Inductive c15case :=
 | SplitCase (dps : list datapoint) (names : list str) (obs : list (str * list entry))
 | ConsCase (k : nat) (batches : nat) (evs : list ev) (emitted : list (nat * list nat)) (* maps in the emission, batches found *)
-| FwdCase (xheaders : list (str * str)) (dynraw : list str) (utf8 : list (str * bool))
+| FwdCase (window : Z) (xheaders : list (str * str)) (dynraw : list str) (utf8 : list (str * bool))
           (items : list witem) (marked : bool) (nflush : nat) (evs : list ev) (bodies : list body)
           (ctr : counters).
 
@@ -75,7 +78,7 @@ Inductive why :=
 | WSplit (model : list (str * list entry))
 | WEmitSize (f : nat) | WBatchCount (b n : nat) | WWindow (b f : nat)
 | WUnknownItem (body i : nat) | WKey (body : nat) (keys : list str) | WHeaders (body : nat) (model : list (str * option str))
-| WRetry (body : nat) (outs : list outcome) | WOverlap (body : nat)
+| WRetry (body : nat) (outs : list outcome) | WOverlap (body : nat) | WEarlyStop (body : nat) (window elapsed_ub : Z)
 | WItemCount (i n : nat) | WInvalidPresent (i : nat) | WNoFlush (body : nat)
 | WCounters (model : counters) (invalid_lo invalid_hi : nat).
 
@@ -125,7 +128,7 @@ Definition body_flush_ok (items : list witem) (evs : list ev) (nflush : nat) (i 
 Definition windows_meet (evs : list ev) (nflush : nat) (a b : nat) : bool :=
   existsb (λ f, window_ok evs a f && window_ok evs b f) (seq 1 nflush).
 
-Definition fwd_problems (xh : list (str * str)) (dynraw : list str) (utf8 : list (str * bool))
+Definition fwd_problems (window : Z) (xh : list (str * str)) (dynraw : list str) (utf8 : list (str * bool))
     (items : list witem) (marked : bool) (nflush : nat) (evs : list ev) (bodies : list body) (ctr : counters)
     : list why :=
   let dyn := effective_dyn xh dynraw in
@@ -150,6 +153,10 @@ Definition fwd_problems (xh : list (str * str)) (dynraw : list str) (utf8 : list
           | Some p => match p_phase p with PEnd => [] | _ => [WRetry i outs] end
           | None => [WRetry i outs] end)
       ++ (if overlap_free i evs false then [] else [WOverlap i])
+      (* abandoned only when the retry window, measured from this request's own start, is exhausted *)
+      ++ (match last outs Ok2xx with
+          | Failed => if stop_allowed window (bd_stop_ub bd) then [] else [WEarlyStop i window (bd_stop_ub bd)]
+          | Ok2xx => [] end)
       ++ (if negb marked || match bd_items bd with [] => true | _ => false end
              || body_flush_ok items evs nflush i bd then [] else [WNoFlush i])) ibodies in
   let per_item := flat_map (λ w,
@@ -182,8 +189,8 @@ Definition problems (c : c15case) : list why :=
       if check_split dps names obs then []
       else [WSplit ((λ kp, (kp.1, entries kp.2)) <$> split_by_tags names (receive_all empty_map dps))]
   | ConsCase k nb evs emitted => cons_problems k nb evs emitted
-  | FwdCase xh dynraw utf8 items marked nflush evs bodies ctr =>
-      fwd_problems xh dynraw utf8 items marked nflush evs bodies ctr
+  | FwdCase window xh dynraw utf8 items marked nflush evs bodies ctr =>
+      fwd_problems window xh dynraw utf8 items marked nflush evs bodies ctr
   end.
 
 Definition check_case (c : c15case) : bool := match problems c with [] => true | _ => false end.
